@@ -60,6 +60,142 @@ def _list_ends(expr, grid):
         return None
     return (i, j)
 
+
+def _validity_intervals(ctx, chk, wl, wflow, mod, gridp, closed, base_name, colname):
+    """starts = [first grid instant] ++ [sample after each gap]; ends = [sample before each gap] ++ [last grid
+    instant]; the k-th pair is labelled k (from 1); a gap is a source step larger than the smallest."""
+    from ..loops import binding
+    from ..seqsym import SeqEnv, seq_of, show
+    where = where_of(wl, closed[1] if closed else wl.node)
+    if closed is None:
+        return
+    gap_arrays = {}
+
+    def gap_is(name):
+        if name in gap_arrays:
+            return gap_arrays[name] is not None
+        gap_arrays[name] = None
+        for x in ast.walk(wl.node):
+            if isinstance(x, ast.Assign) and len(x.targets) == 1 and isinstance(x.targets[0], ast.Name) and x.targets[0].id == name:
+                txt = ast.unparse(wflow.expand(x.value))
+                if any(k in txt for k in ("nonzero(", "flatnonzero(", "argwhere(", "where(")) and any(isinstance(c, ast.Compare) for c in ast.walk(wflow.expand(x.value))):
+                    gap_arrays[name] = x
+        return gap_arrays[name] is not None
+
+    def tarr_is(name):
+        return colname.get(base_name(ast.Name(id=name, ctx=ast.Load()))) == "epoch"
+
+    env = SeqEnv(wflow, gridp, tarr_is, gap_is)
+    # start / through variables of the closed test, and the label stored under the mask
+    names = {}
+    for c in (closed[1].left, closed[1].right):
+        l, r, op = c.left, c.comparators[0], type(c.ops[0])
+        if base_name(r) == gridp and base_name(l) != gridp:
+            l, r = r, l
+            op = {ast.Lt: ast.Gt, ast.Gt: ast.Lt, ast.LtE: ast.GtE, ast.GtE: ast.LtE}.get(op, op)
+        if isinstance(r, ast.Name):
+            names["start" if op in (ast.GtE, ast.Gt) else "thru"] = r
+    st = enclosing_stmt(closed[1])
+    label = None
+    if isinstance(st, ast.Assign) and isinstance(st.targets[0], ast.Subscript):
+        label = st.value
+    else:
+        # mask = (...) ; labels[mask] = k
+        if isinstance(st, ast.Assign) and isinstance(st.targets[0], ast.Name):
+            mname = st.targets[0].id
+            for x in ast.walk(wl.node):
+                if isinstance(x, ast.Assign) and isinstance(x.targets[0], ast.Subscript) and isinstance(x.targets[0].slice, ast.Name) and x.targets[0].slice.id == mname:
+                    label = x.value
+    if set(names) != {"start", "thru"} or label is None:
+        chk.indeterminate("C10.O5", where, "start / through / label of the validity test not identified")
+        return
+
+    def seq_for(name_node):
+        b = binding(name_node)
+        if b is None or b.kind != "elem":
+            return None
+        if b.path == ():
+            return seq_of(env, b.container)
+        cont = b.container
+        dv = wflow.def_value(cont) if isinstance(cont, ast.Name) else cont
+        while isinstance(dv, ast.Call) and isinstance(dv.func, ast.Name) and dv.func.id in ("list", "tuple") and len(dv.args) == 1:
+            dv = dv.args[0]
+        if len(b.path) == 1 and isinstance(dv, ast.Call) and isinstance(dv.func, ast.Name) and dv.func.id == "zip" and b.path[0] < len(dv.args):
+            return seq_of(env, dv.args[b.path[0]])
+        if len(b.path) == 1 and isinstance(dv, ast.ListComp) and isinstance(dv.elt, ast.Tuple) and b.path[0] < len(dv.elt.elts) and len(dv.generators) == 1:
+            g = dv.generators[0]
+            e = dv.elt.elts[b.path[0]]
+            rng = g.iter
+            try:
+                if isinstance(g.target, ast.Name) and isinstance(rng, ast.Call) and isinstance(rng.func, ast.Name) and rng.func.id == "range" and len(rng.args) == 3 \
+                        and py_poly(rng.args[0]).const_or_none() == 0 and py_poly(rng.args[2]).const_or_none() == 2 \
+                        and isinstance(e, ast.Subscript) and isinstance(e.value, ast.Name):
+                    off = (py_poly(e.slice) - Poly.atom(g.target.id)).const_or_none()
+                    if off in (0, 1) and ast.unparse(rng.args[1]).replace(" ", "") == "len(%s)" % e.value.id:
+                        from ..seqsym import stride2
+                        base = seq_of(env, e.value)
+                        return stride2(base, int(off)) if base is not None else None
+            except NotAlgebraic:
+                return None
+        return None
+
+    starts, ends = seq_for(names["start"]), seq_for(names["thru"])
+    # labels: first label and step
+    first_label = None
+    if isinstance(label, ast.Name):
+        lb = binding(label)
+        if lb is not None and lb.kind == "counter" and lb.loop is (binding(names["start"]).loop if binding(names["start"]) else None):
+            first_label = lb.start
+        elif lb is not None and lb.kind == "elem" and len(lb.path) == 1:
+            cont = lb.container
+            dv = wflow.def_value(cont) if isinstance(cont, ast.Name) else cont
+            if isinstance(dv, ast.ListComp) and isinstance(dv.elt, ast.Tuple) and lb.path[0] < len(dv.elt.elts) and len(dv.generators) == 1 \
+                    and isinstance(dv.generators[0].target, ast.Name):
+                iv = dv.generators[0].target.id
+                txt = ast.unparse(dv.elt.elts[lb.path[0]]).replace(" ", "")
+                if txt in ("%s//2+1" % iv, "1+%s//2" % iv):
+                    first_label = 1
+                elif txt == "%s//2" % iv:
+                    first_label = 0
+                elif isinstance(dv.elt.elts[lb.path[0]], ast.Constant):
+                    first_label = "the constant %r for every interval" % dv.elt.elts[lb.path[0]].value
+    if starts is None or ends is None:
+        chk.indeterminate("C10.O5", where, "the start / end sequences of the validity intervals are not built in a way this rule reads (starts = %s, ends = %s)" % (show(starts), show(ends)))
+        return
+    want_s = [("one", "G[0]"), ("per", ["T[g+1]"])]
+    want_e = [("per", ["T[g]"]), ("one", "G[-1]")]
+    chk.ob("C10.O5", starts == want_s and ends == want_e, where,
+           "interval starts = %s ; ends = %s" % (show(starts), show(ends)),
+           "starts = [G[0]] ++ [T[g+1] for each gap] ; ends = [T[g] for each gap] ++ [G[-1]]  (G = grid, T = source times, g = last sample before a gap)",
+           key="populate_water_level|boundaries", why="a stretch runs from the first sample after one gap to the last sample before the next")
+    if first_label is None:
+        chk.indeterminate("C10.O5", where, "how the validity intervals are numbered (%s) is not recognised" % ast.unparse(label)[:40])
+    else:
+        chk.ob("C10.O5", first_label == 1, where, "the k-th interval is labelled %s" % (
+            "k" if first_label == 1 else ("k%+d" % (first_label - 1) if isinstance(first_label, int) else first_label)),
+               "labels 1, 2, 3, ... in order", key="populate_water_level|labels", why="stretches separated by gaps must carry distinct labels starting from 1")
+    # the gap index array: source steps that differ from (exceed) the smallest step
+    used = [n for n, d in gap_arrays.items() if d is not None]
+    for gname in used:
+        x = gap_arrays[gname]
+        gp_ok = None
+        for cmp_ in ast.walk(wflow.expand(x.value)):
+            if isinstance(cmp_, ast.Compare) and len(cmp_.ops) == 1:
+                try:
+                    from ..norm import py_compare
+                    opn, pn = py_compare(cmp_, callname=lambda c: "MIN" if (isinstance(c.func, ast.Attribute) and c.func.attr in ("min", "amin")) else None)
+                    atoms_ = sorted(pn.atoms())
+                    gp_ok = len(atoms_) == 2 and any(a_.startswith("MIN(") for a_ in atoms_) and \
+                        all(abs(pn.coeff_of_atom(a_).const_value()) == 1 for a_ in atoms_) and pn.without_atom(atoms_[0]).without_atom(atoms_[1]).is_zero() \
+                        and opn in ("!=", ">", "<")
+                except Exception:
+                    gp_ok = None
+        if gp_ok is None:
+            chk.indeterminate("C10.O5", where_of(wl, x), "gap predicate %s not of the form steps {!=, >} min(steps)" % ast.unparse(x.value)[:80])
+        else:
+            chk.ob("C10.O5", gp_ok, where_of(wl, x), "gaps = %s" % ast.unparse(x.value)[:100], "source steps larger than the smallest step",
+                   key="populate_water_level|gap-predicate", why="a single missing reading is a gap; a predicate that tolerates it interpolates across it")
+
 def run(ctx, chk, tier="quick"):
     chk.explanation = (
         "SQL ASTs of the grid query and of the two INSERT ... SELECT copies with their parameter "
@@ -449,77 +585,8 @@ def run(ctx, chk, tier="quick"):
                "start <= t <= through: the samples bounding a gap are valid, instants strictly inside it are not",
                key="populate_water_level|validity-closed",
                why="a half-open test drops the last sample before a gap (or the first after it)")
-        # labels
-        lab_ok = False
-        ldesc = "valid_intervals construction not found"
-        for n in ast.walk(wl.node):
-            if isinstance(n, ast.ListComp) and isinstance(n.elt, ast.Tuple) and len(n.elt.elts) == 3 and len(n.generators) == 1:
-                g = n.generators[0]
-                iv = g.target.id if isinstance(g.target, ast.Name) else None
-                rng = g.iter
-                e0, e1, e2 = n.elt.elts
-                try:
-                    step2 = isinstance(rng, ast.Call) and isinstance(rng.func, ast.Name) and rng.func.id == "range" and len(rng.args) == 3 \
-                        and py_poly(rng.args[0]).const_or_none() == 0 and py_poly(rng.args[2]).const_or_none() == 2
-                    pair = isinstance(e0, ast.Subscript) and isinstance(e1, ast.Subscript) and py_poly(e0.slice) == Poly.atom(iv) \
-                        and py_poly(e1.slice) == Poly.atom(iv) + Poly.const(1) and ast.unparse(e0.value) == ast.unparse(e1.value)
-                    label = ast.unparse(e2).replace(" ", "") in ("%s//2+1" % iv, "1+%s//2" % iv)
-                    lab_ok = step2 and pair and label
-                    ldesc = ast.unparse(n)[:110]
-                except NotAlgebraic:
-                    pass
-        if ldesc == "valid_intervals construction not found":
-            chk.indeterminate("C10.O5", where_of(wl, wl.node), "construction of the labelled validity intervals not found")
-        else:
-          chk.ob("C10.O5", lab_ok, where_of(wl, wl.node), "intervals = %s" % ldesc,
-               "consecutive boundary pairs (b[i], b[i+1]) for i = 0, 2, 4, ... labelled i // 2 + 1",
-               key="populate_water_level|labels", why="stretches separated by gaps must carry distinct labels starting from 1")
-        # boundaries: [grid[0]] + pairs(zeta_t[gap], zeta_t[gap + 1]) + [grid[-1]]
-        bnd_ok = False
-        ends_wrong = False
-        bdesc = "boundary list not found"
-        for n in ast.walk(wl.node):
-            if isinstance(n, ast.Assign) and isinstance(n.value, ast.BinOp) and isinstance(n.value.op, ast.Add):
-                txt = ast.unparse(n.value).replace(" ", "")
-                ends = _list_ends(n.value, gridp)
-                if ends is not None and ends != (0, -1):
-                    bdesc = ast.unparse(n.value)[:120]
-                    bnd_ok = False
-                    ends_wrong = True
-                if ends == (0, -1):
-                    bdesc = ast.unparse(n.value)[:120]
-                    mid = n.value.left.right if isinstance(n.value.left, ast.BinOp) else None
-                    mt = ast.unparse(mid).replace(" ", "") if mid is not None else ""
-                    # zip(t[gap], t[gap+1])
-                    import re
-                    m = re.search(r"zip\((\w+)\[(\w+)\],(\w+)\[(\w+)\+1\]\)", mt)
-                    bnd_ok = bool(m) and m.group(1) == m.group(3) and m.group(2) == m.group(4) and colname.get(base_name(ast.Name(id=m.group(1), ctx=ast.Load())), colname.get(m.group(1))) in ("epoch", None)
-                    if m:
-                        # gap index definition: nonzero(steps != steps.min())
-                        gname = m.group(2)
-                        for x in ast.walk(wl.node):
-                            if isinstance(x, ast.Assign) and isinstance(x.targets[0], ast.Name) and x.targets[0].id == gname:
-                                gt_ = ast.unparse(x.value).replace(" ", "")
-                                gp_ok = False
-                                for cmp_ in ast.walk(x.value):
-                                    if isinstance(cmp_, ast.Compare) and len(cmp_.ops) == 1:
-                                        try:
-                                            from ..norm import py_compare
-                                            opn, pn = py_compare(cmp_, callname=lambda c: "MIN" if isinstance(c.func, ast.Attribute) and c.func.attr == "min" else None)
-                                            atoms_ = sorted(pn.atoms())
-                                            # steps - MIN(steps) compared with 0 by != or >
-                                            gp_ok = len(atoms_) == 2 and any(a_.startswith("MIN(") for a_ in atoms_) and \
-                                                all(abs(pn.coeff_of_atom(a_).const_value()) == 1 for a_ in atoms_) and pn.without_atom(atoms_[0]).without_atom(atoms_[1]).is_zero() \
-                                                and opn in ("!=", ">", "<")
-                                        except Exception:
-                                            gp_ok = False
-                                bnd_ok = bnd_ok and "nonzero(" in gt_ and gp_ok
-        if bdesc == "boundary list not found":
-            chk.indeterminate("C10.O5", where_of(wl, wl.node), "boundary list of the validity intervals not found")
-        else:
-          chk.ob("C10.O5", bnd_ok, where_of(wl, wl.node), "boundaries = %s" % bdesc,
-               "[first grid time] + (sample before each gap, sample after it)... + [last grid time], gaps = source steps larger than the smallest",
-               key="populate_water_level|boundaries")
+        # ---- what the validity intervals are: starts, ends and labels as symbolic sequences (seqsym)
+        _validity_intervals(ctx, chk, wl, wflow, mod, gridp, closed, base_name, colname)
         # unlabelled instants: the sentinel written is the sentinel tested, and it is not a label (labels start at 1)
         sent_set = sent_test = None
         for n in ast.walk(wl.node):
